@@ -17,12 +17,10 @@ Lemma idempotent_bounded c : In c family_quick -> in_zone (case_msg c) = false -
   mask_password (mask_password (case_msg c) (case_mask c)) (case_mask c) = mask_password (case_msg c) (case_mask c).
 Proof. intros Hin Hz. destruct (mask_whole_bounded c Hin Hz) as [H1 H2]. rewrite H1. exact H2. Qed.
 
-Lemma family_nonvacuous : N.of_nat (length family_quick) = 8022 /\ (exists c, In c family_quick /\ in_zone (case_msg c) = false).
+Lemma family_nonvacuous : N.of_nat (length family_quick) = 801 /\ (exists c, In c family_quick /\ in_zone (case_msg c) = false).
 Proof.
   split; [vm_compute; reflexivity|].
-  exists (lit "run ", (lit "adminpass=", ([97], ([], (lit " ok", lit "***"))))). split; [|vm_compute; reflexivity].
-  unfold family_quick. apply in_or_app. left. apply in_or_app. left.
-  unfold family_A. cbn [spec_keys_35 flat_map]. apply in_or_app. left. cbn [casings flat_map]. apply in_or_app. left.
+  exists (lit "run ", (lit "admin_password=", ([233; 94], ([], (lit " ok", lit "***"))))). split; [|vm_compute; reflexivity].
   vm_compute. left. reflexivity.
 Qed.
 
@@ -54,5 +52,34 @@ Proof.
   assert (H' := H ltac:(cbn; solve_in) ltac:(cbn; solve_in) ltac:(cbn; solve_in) ltac:(cbn; solve_in)
                   ltac:(cbn [renderings]; solve_in) ltac:(cbn [renderings]; solve_in)
                   eq_refl eq_refl ltac:(discriminate) ltac:(discriminate) eq_refl eq_refl eq_refl).
+  clear H. vm_compute in H'. discriminate H'.
+Qed.
+
+(* ---------- K14: one secret in neutral text, `--K value` with a flag-like value ---------- *)
+Definition single_statement : Prop :=
+  forall k KD (r : rend) v pre post mask,
+    In k spec_keys_35 -> In KD (casings k) -> In r (renderings KD) ->
+    forallb (fst r) v = true -> v <> [] -> neutral pre = true -> neutral post = true ->
+    mask_password (pre ++ [32] ++ fst (snd r) ++ v ++ snd (snd r) ++ [32] ++ post) mask
+    = pre ++ [32] ++ fst (snd r) ++ mask ++ snd (snd r) ++ [32] ++ post.
+
+Definition k14_witness : str := lit " --auth_password -ab 1".
+
+Lemma refuted_K14 :
+  ~ single_statement /\
+  mask_password k14_witness (lit "***") = lit " --auth_password *** ***" /\
+  zone_K14 k14_witness = true /\ zone_K12 k14_witness = false /\
+  (* the same value under the suffix key itself, and a non-flag value under the longer key, are fine *)
+  mask_password (lit " --password -ab 1") (lit "***") = lit " --password *** 1" /\
+  zone_K14 (lit " --password -ab 1") = false /\
+  mask_password (lit " --auth_password -ab1 1") (lit "***") = lit " --auth_password *** 1" /\
+  zone_K14 (lit " --auth_password -ab1 1") = false.
+Proof.
+  split; [|vm_compute; repeat split; reflexivity].
+  intros H.
+  specialize (H (lit "auth_password") (lit "auth_password") (dd_char, (lit "--" ++ lit "auth_password" ++ lit " ", []))
+                (lit "-ab") [] (lit "1") (lit "***")).
+  assert (H' := H ltac:(cbn; solve_in) ltac:(cbn; solve_in) ltac:(cbn [renderings]; solve_in)
+                  eq_refl ltac:(discriminate) eq_refl eq_refl).
   clear H. vm_compute in H'. discriminate H'.
 Qed.
